@@ -25,7 +25,8 @@ LEVEL = "fault_enumeration"
 RULE = ("(a) enumerated delivery patterns through a real node's update(): messages of 2..4 fragments (thorough 2..6), every "
         "fragment {dropped, once, twice} (3^f), every single adjacent transposition, a full replay of the stream, all "
         "interleavings of two senders' streams (2-3 fragments each) with equal and with different frame ids, two consecutive "
-        "messages of the same sender with every subset of fragments lost, three senders "
+        "messages of the same sender with every subset of fragments lost, the stream (with repeated tail / full replay / "
+        "drop-dup patterns) arriving at a queue that already holds 5 or 6 (= max_queue_size) whole messages of another sender, three senders "
         "round-robin, stray MORE/LAST with no FIRST (incl. ids equal to the node's freshly built cache), each with every "
         "dequeue position; node roles: network node at levels 0..2 and mesh master; (b) seeded full-stack runs: 2-3 child "
         "senders writing fragmented messages concurrently with coinciding or different frame ids under packet/ACK loss. "
@@ -34,6 +35,7 @@ ASSUMPTIONS = ["reference fragmenter checks/netref.fragment (TMRh20 numbering)",
                "nothing is claimed about which messages get through"]
 CLAUSES = {"intact": "byte-for-byte one complete message that some node actually sent to it, with its type and origin",
            "at_most_once": "one transmitted message is delivered at most once"}
+PROBES = ["stream_met_full_queue"]
 SHRINK_KEYS = ("seq", "faults")
 CHUNK = 100
 _ENUM = {}
@@ -110,7 +112,24 @@ def _enum(tier):
     out = []
     for st, seq, kind in cases:
         for deq in range(0, len(seq) + 1):
-            out.append((st, seq, kind, deq))
+            out.append((st, seq, kind, deq, 0))
+    # x a queue that is (nearly) full of other senders' whole messages when the stream arrives: a completed message may be
+    # refused by the bounded queue; the application drains the queue at the dequeue position and the stream's tail comes again
+    for f, ty in [(f, ty) for f in (2, 3) for ty in ((33, 65, 2), (1, 2, 0))]:
+        st = _streams(f, types=ty)
+        full = [[0, j] for j in range(f)]
+        for seq, kind in ((full + [[0, f - 1]], "last_twice"), (full + full[1:], "tail_replay"), (full * 2, "replay"),
+                          (full * 2 + [[0, f - 1]], "replay"), (full * 2 + full[1:], "replay")):
+            for deq in range(0, len(seq) + 1):
+                for pre in (5, 6):
+                    out.append((st, seq, kind, deq, pre))
+                if len(seq) > 2 * f and deq:
+                    out.append((st, seq, kind, deq, 0))
+        for pat in itertools.product((0, 1, 2), repeat=f):
+            seq = [[0, k] for k in range(f) for _ in range(pat[k])]
+            if len(seq) >= f:
+                for deq in range(1, len(seq) + 1):
+                    out.append((st, seq, "dropdup", deq, 6))
     _ENUM[tier] = out
     return out
 
@@ -131,9 +150,10 @@ def make(i, base_seed, tier):
     rng = stream(seed, "work")
     en = _enum(tier)
     if i < 2 * len(en):
-        st, seq, kind, deq = en[i % len(en)]
+        st, seq, kind, deq, pre = en[i % len(en)]
         role = ROLES[(i // len(en)) * 2 + (i % 2)] if i >= len(en) else ROLES[i % 2 * 3 % 4]
-        return {"seed": seed, "layer": "a", "role": list(role), "streams": st, "seq": [list(x) for x in seq], "deq": deq, "kind": kind, "faults": []}
+        return {"seed": seed, "layer": "a", "role": list(role), "streams": st, "seq": [list(x) for x in seq], "deq": deq, "prefill": pre,
+                "kind": kind, "faults": []}
     # ---- (b) full stack
     kr = stream(seed, "knobs")
     recv = rng.choice([0, 0o1, 0o2])
@@ -212,6 +232,18 @@ def _run_a(scn, w, res):
             delivered.append((f.header.from_node, f.header.message_type, bytes(f.message)))
 
     n_in = 0
+    # whole messages of another child already waiting in the bounded queue
+    filler = addr | (5 << (3 * lv))
+    for q in range(scn.get("prefill", 0)):
+        data = payload(900 + q, 3 + q)
+        inj.send(rn.pipe_addr(netref.child_pipe(filler)), netref.fragment(filler, addr, 0x5100 + q, 10, data)[0], want_ack=False)
+        sent.append((filler, 10, data))
+        sim.log("inject_filler", "N", q)
+        node.update()
+    if scn.get("prefill"):
+        sim.count("queue_prefilled")
+        if len(node.queue) >= node.queue.max_queue_size:
+            sim.count("stream_met_full_queue")
     for k, (si, fi) in enumerate(scn["seq"]):
         if k == scn.get("deq", -1):
             dequeue_all()
@@ -233,8 +265,8 @@ def _run_a(scn, w, res):
     _judge(res, delivered, sent, scn["kind"])
     res.nontrivial = n_in >= 2
     import hashlib
-    res.isig = hashlib.blake2b(repr((scn["role"], scn["seq"], scn.get("deq"), [(s["fid"], s["len"], s["type"]) for s in streams])).encode(), digest_size=8).hexdigest()
-    res.sample = {"layer": "a", "role": [cls, oct(addr)], "kind": scn["kind"], "seq": scn["seq"], "deq": scn.get("deq"),
+    res.isig = hashlib.blake2b(repr((scn["role"], scn["seq"], scn.get("deq"), scn.get("prefill", 0), [(s["fid"], s["len"], s["type"]) for s in streams])).encode(), digest_size=8).hexdigest()
+    res.sample = {"layer": "a", "role": [cls, oct(addr)], "kind": scn["kind"], "seq": scn["seq"], "deq": scn.get("deq"), "prefill": scn.get("prefill", 0),
                   "delivered": [(oct(d[0]), d[1], len(d[2])) for d in delivered]}
 
 
